@@ -257,17 +257,25 @@ impl Xot {
     /// have siblings.
     /// If it's an unattached tree, it's the top node of that tree
     pub fn top_element(&self, node: Node) -> Node {
-        if self.value_type(node) == ValueType::Document {
-            return self.document_element(node).unwrap();
-        }
-        let mut top = node;
+        let mut top = None;
+        let mut root = node;
         for ancestor in self.ancestors(node) {
             if let Value::Element(_) = self.value(ancestor) {
-                top = ancestor;
+                top = Some(ancestor);
             }
+            root = ancestor;
+        }
+        if let Some(top) = top {
+            return top;
+        }
+        // no element on the way up (the document node itself, or a comment,
+        // processing instruction or text next to the document element): the
+        // document element, if the tree is a document that has one
+        if let Ok(element) = self.document_element(root) {
+            return element;
         }
         // XXX in an unattached tree this may not be an element.
-        top
+        node
     }
 
     /// Obtain root of the tree.
